@@ -5,6 +5,9 @@ cluster) at nearly the same point, so geometry never filters a pair. The set of 
 must equal mj_collision's set (primary oracle) and the set predicted by an independent Python evaluation of MuJoCo's
 documented rules over MjModel fields (secondary oracle; if the two oracles disagree the case is inconclusive).
 Contacts of explicit <pair>s must carry the pair's condim / friction / solref / solreffriction / solimp / margin.
+A second case family attaches collision sensors (distance / normal / fromto) to filtered-out pairs: the sensors keep those
+pairs in the broadphase tables and in the contact pool (SENSOR-only entries), and they must still never become contacts
+(CONSTRAINT bit, constraint rows, nefc).
 """
 
 import mujoco
@@ -21,8 +24,14 @@ RULE = (
   "optional world sphere and plane; contype/conaffinity drawn from {0,1,2,3,4,5,6,7} with a bias to 0; 0-3 <exclude>s (both "
   "body orders, also parent/child and same-weld bodies), 0-4 explicit <pair>s with own parameters (also on geoms whose masks "
   "do not match, on excluded bodies, on parent/child geoms); FILTERPARENT on/off; broadphase type drawn from NXN / SAP_TILE / "
-  "SAP_SEGMENTED so both pair-table code paths run; 2 worlds with different joint angles. Non-trivial: >=1 pair accepted and "
-  ">=1 pair rejected by the rules; distinct by hash(xml)."
+  "SAP_SEGMENTED so both pair-table code paths run; 2 worlds with different joint angles. Every third case ('sens' family) "
+  "adds 1-4 collision sensors (distance / normal / fromto, geom- or body-level, either geom order, cutoff 0/0.05/1/10, shared "
+  "pairs) aimed mostly at pairs the filter rejects (bitmask, same weld body, same body, parent/child, <exclude>), also at "
+  "ordinary and explicit pairs; such pairs stay in the broadphase tables for the sensor but must never be reported as "
+  "(CONSTRAINT) contacts nor receive constraint rows; in half of those cases the last world moves free/sliding bodies metres "
+  "apart (observed pairs beyond margin). Judged there: contact set vs MuJoCo, sensor-only pool entries have no efc address, "
+  "nefc equals MuJoCo's when the contact lists agree, sensor values. Non-trivial: >=1 pair accepted and >=1 pair rejected by "
+  "the rules; distinct by hash(xml)."
 )
 ASSUMPTIONS = [
   "primary oracle: mujoco.mj_collision (MuJoCo 3.13) on the same model and qpos",
@@ -30,6 +39,11 @@ ASSUMPTIONS = [
   "disabled or one of them is the world, (contype1 & conaffinity2) | (contype2 & conaffinity1), not <exclude>d",
   "all geoms overlap geometrically (verified per pair in float64 for the spheres / plane), so only the rules decide",
   "geom order inside a reported pair is not judged here (see C18: SAP broadphases may swap same-type geoms)",
+  "a 'reported contact' is a contact pool entry with the ContactType.CONSTRAINT bit (what MuJoCo's mjData.contact holds); entries "
+  "with only the SENSOR bit are the collision sensors' private measurements and are required to stay out of the solver",
+  "sens family reference: mj_kinematics + mj_comPos + mj_collision + mj_makeConstraint + mj_sensorPos; collision-sensor values "
+  "are compared with MuJoCo's (secondary; not judged at distance ties between candidate pairs, at the cutoff boundary or for "
+  "coincident centres; 1e-3 agree / 3e-2 violated)",
 ]
 BUDGET = {"quick": 400, "thorough": 1800}
 
@@ -372,7 +386,11 @@ def run_case(case):
     for w in range(nworld):
       mjd = mujoco.MjData(mjm)
       mjd.qpos[:] = qs[w]
-      mujoco.mj_fwdPosition(mjm, mjd)
+      # not mj_fwdPosition: its island stage aborts on explicit pairs between two static bodies
+      mujoco.mj_kinematics(mjm, mjd)
+      mujoco.mj_comPos(mjm, mjd)
+      mujoco.mj_collision(mjm, mjd)
+      mujoco.mj_makeConstraint(mjm, mjd)
       mujoco.mj_sensorPos(mjm, mjd)
       refs.append((_col.mj_contacts(mjm, mjd), mjd))
     need = 12 * (max(r[0]["geom"].shape[0] for r in refs) + 8)
@@ -505,9 +523,26 @@ def run_case(case):
       x, r = np.asarray(sd[adr : adr + dim], dtype=np.float64), np.asarray(mjd.sensordata[adr : adr + dim], dtype=np.float64)
       err = float(np.abs(x - r).max())
       rec.check()
-      rec.worst("sensordata", err / 1e-3)
+      if err <= 3e-2:
+        rec.worst("sensordata", err / 1e-3)
       tag = SENSOR_TAGS[int(mjm.sensor_type[s])]
-      if err > 3e-2:
+      mirrored = (dim == 3 and np.abs(x + r).max() < 1e-3) or (dim == 6 and np.abs(x[:3] - r[3:]).max() < 1e-3 and np.abs(x[3:] - r[:3]).max() < 1e-3)
+      if err > 3e-2 and mirrored and bp != 0:
+        # known mechanism: sensor.py decides the direction from geom ids assuming contact.geom = (low id, high id) for
+        # same-type geoms, but the SAP broadphases emit same-type pairs in sweep order
+        rec.viol(
+          "collision-sensor-direction-mirrored:sap-broadphase-same-type-geom-order",
+          f"world {w}: sensor {s} ({tag}, cutoff {cut:g}) on geom pairs {ps} reads {x}, MuJoCo {r}: direction mirrored under broadphase {BroadphaseType(bp).name}",
+        )
+      elif err > 3e-2 and bp != 0 and ds[0] > 0 and ds[0] < cut and ((dim == 1 and abs(x[0] - cut) < 1e-6) or (dim > 1 and not np.any(x))):
+        # known mechanism: the SAP sweep only visits geom pairs whose projections on the sweep axis overlap; the
+        # "or pairid[1] >= 0" clause in _sap_broadphase bypasses the bounding-volume filter only, so a separated
+        # sensor pair is never handed to the narrowphase and the sensor returns its cutoff / zeros
+        rec.viol(
+          "collision-sensor-misses-separated-pair:sap-broadphase-sweep",
+          f"world {w}: sensor {s} ({tag}, cutoff {cut:g}) on geom pairs {ps} reads {x}, MuJoCo {r} (closest pair distance {ds[0]:.6g} < cutoff); broadphase {BroadphaseType(bp).name}",
+        )
+      elif err > 3e-2:
         rec.viol(
           f"collision-sensor-value:{tag}",
           f"world {w}: sensor {s} ({tag}, cutoff {cut:g}) on geom pairs {ps} reads {x}, MuJoCo {r} (closest pair distance {ds[0]:.6g}); broadphase {BroadphaseType(bp).name}",
@@ -527,7 +562,7 @@ def run_case(case):
   rec.cover("pairs_rejected", nrej)
   if nacc > 0 and nrej > 0:
     rec.nontrivial(xml)
-  rec.sample = {"ngeom": int(mjm.ngeom), "nbody": int(mjm.nbody), "npair": int(mjm.npair), "nexclude": int(mjm.nexclude), "filterparent_disabled": bool(mjm.opt.disableflags & mujoco.mjtDisableBit.mjDSBL_FILTERPARENT), "broadphase": BroadphaseType(bp).name, "pairs_accepted_all_worlds": nacc, "pairs_rejected_all_worlds": nrej}
+  rec.sample = {"family": "sens" if sens else "plain", "ncollision_sensor": len(spairs), "ngeom": int(mjm.ngeom), "nbody": int(mjm.nbody), "npair": int(mjm.npair), "nexclude": int(mjm.nexclude), "filterparent_disabled": bool(mjm.opt.disableflags & mujoco.mjtDisableBit.mjDSBL_FILTERPARENT), "broadphase": BroadphaseType(bp).name, "pairs_accepted_all_worlds": nacc, "pairs_rejected_all_worlds": nrej}
   return rec.result()
 
 
@@ -546,6 +581,25 @@ def requirements(agg, tier):
       unmet.append(f"broadphase {b} never used")
   if cov.get("explicit_pair_contacts_checked", 0) < 20:
     unmet.append("fewer than 20 explicit-pair contacts checked")
+  # "sens" family: filtered pairs kept alive in the collision pipeline by collision sensors
+  if cov.get("sensor_cases", 0) < 40:
+    unmet.append("fewer than 40 cases with collision sensors ran")
+  for r in ("contype-conaffinity", "same-weld-body", "parent-child", "exclude", "same-body"):
+    if cov.get("sensor_pair:" + r, 0) < 8:
+      unmet.append(f"fewer than 8 sensor-observed overlapping geom pairs rejected by rule '{r}'")
+  for r, k in (("dynamic-pair", 5), ("explicit-pair", 3), ("not-overlapping", 5)):
+    if cov.get("sensor_pair:" + r, 0) < k:
+      unmet.append(f"fewer than {k} sensor-observed geom pairs of class '{r}'")
+  if cov.get("sensor_only_pool_entries", 0) < 20:
+    unmet.append("fewer than 20 sensor-only contact pool entries observed (the sensors kept no filtered pair in the pipeline)")
+  if cov.get("nefc_compared", 0) < 20:
+    unmet.append("nefc compared with MuJoCo in fewer than 20 sensor worlds")
+  for f in ("sensor:distance", "sensor:normal", "sensor:fromto", "sensor:body_level", "sensor:geom_level", "sensor:shared_pair", "sensor:apart_world"):
+    if f not in feats:
+      unmet.append(f"feature never generated: {f}")
+  for b in ("NXN", "SAP_TILE", "SAP_SEGMENTED"):
+    if not cov.get("sensor_broadphase:" + b):
+      unmet.append(f"broadphase {b} never used with collision sensors")
   if agg["distinct"] < 50:
     unmet.append("fewer than 50 distinct non-trivial cases")
   return unmet
